@@ -33,6 +33,7 @@ CONFIGS = {
         ("long", '<<"int", "varchar">>', "<<0, 1>>", "<<1, 2>>", 2, ",", False, '{"valid", "badnum"}', 10, 10),
         # one CSV field feeding two columns
         ("fan-out", '<<"varchar", "int", "varchar">>', "<<0, 1, 0>>", "<<1, 2, 3>>", 2, ";", True, ALL, 2, 1),
+        ("bulk", '<<"varchar", "int", "boolean">>', "<<0, 1, 2>>", "<<1, 2, 3>>", 3, ",", False, ALL, 1500, 1500),
     ],
     "thorough": [
         ("full-identity", FULL, "<<0, 1, 2, 3>>", "<<1, 2, 3, 4>>", 4, ",", False, ALL, 4, 1),
@@ -50,9 +51,12 @@ CONFIGS = {
         ("fan-out", '<<"varchar", "int", "varchar">>', "<<0, 1, 0>>", "<<1, 2, 3>>", 2, ";", True, ALL, 3, 1),
         ("long-mixed", '<<"varchar", "boolean">>', "<<1, 0>>", "<<1, 2>>", 2, "|", False,
          '{"valid", "malformed", "short"}', 7, 1),
+        ("bulk", '<<"varchar", "int", "boolean">>', "<<0, 1, 2>>", "<<1, 2, 3>>", 3, ",", False, ALL, 3000, 3000),
+        ("bulk-wide", '<<"int", "varchar">>', "<<1, 0>>", "<<1, 2>>", 2, ";", True, '{"valid", "null", "badnum", "short"}', 2000, 2000),
     ],
 }
 RENDERS = ["lf", "crlf", "nofinal"]
+BULK_RUNS = 2
 FINDING = "csv-bigint-null"
 PER_SIGNATURE = 3
 CLASSES = ["valid", "null", "allnull", "malformed", "short", "badnum", "range", "extra", "empty"]
@@ -98,6 +102,18 @@ def tlc_config(ctx, idx, c):
     name, schema, src, dst, nfields, sep, wide, only, maxrecs, emitfrom = c
     mod = "CsvRun%d" % idx
     scns = []
+    if name.startswith("bulk"):
+        # streams far longer than TLC can enumerate: random behaviours of the same specification (simulation mode), printed
+        # once, at full length - an import of a file of that many lines, good and bad records in any order
+        # (a generator only: the invariants, which re-derive the whole table from the stream in every state, are checked in
+        # the enumerated configurations)
+        res = vlib.run_tlc(ctx, mod, mod + ".cfg", cfg_text=run_cfg(nfields, wide, maxrecs, emitfrom).replace(
+                               "PROPERTIES ErrChangesNothing OkAddsOneRow\n", "").replace(
+                               "INVARIANTS Meaning NullOnlyFromMarker TaintExact\n", ""), workers=1, timeout=600,
+                           files={mod + ".tla": run_module(mod, schema, src, dst, sep, only)},
+                           simulate="num=%d" % BULK_RUNS, extra=["-depth", str(maxrecs + 1), "-seed", str(ctx.seed)], xss="512m",
+                           on_scn=lambda k, o: scns.append(o))
+        return name, res, scns
     res = vlib.run_tlc(ctx, mod, mod + ".cfg", cfg_text=run_cfg(nfields, wide, maxrecs, emitfrom), workers=4, timeout=1500,
                        files={mod + ".tla": run_module(mod, schema, src, dst, sep, only)},
                        on_scn=lambda k, o: scns.append(o))
